@@ -15,7 +15,7 @@ A == "A"
 B == "B"
 GrantSetsQ  == {{}, {A}, {Star}}
 GrantSetsT  == {{}, {A}, {Star}, {A, Star}}
-U2TypesQ    == {[direct |-> {B}, inRole |-> FALSE], [direct |-> {}, inRole |-> TRUE]}
+U2TypesQ    == {[direct |-> {B}, inRole |-> FALSE]}
 U2TypesT    == {[direct |-> {B}, inRole |-> FALSE], [direct |-> {}, inRole |-> TRUE]}
 WideSetsC   == {{}, {A}, {B}, {Pub}, {A, B}}
 NarrowSetsQ == {{A}, {B}}
